@@ -71,7 +71,25 @@ pub fn shipped_src<P: TECurveConfig>() -> Src<P> {
                 let rr = from_y::<P>(t);
                 let (tors, small) = if !ells.is_empty() && (cls == 4 || cls == 6) {
                     let l = ells[t.idx(ells.len())];
-                    (mul::<P>(&rr, &(&n / BigUint::from(l))), true)
+                    // order-l component: divide out the full power of l first (dividing by l once would kill the
+                    // whole l-part whenever the l-torsion is not cyclic), then push down to order exactly l
+                    let lb = BigUint::from(l);
+                    let mut e = n.clone();
+                    while (&e % &lb).is_zero() {
+                        e /= &lb;
+                    }
+                    let mut cur = mul::<P>(&rr, &e);
+                    loop {
+                        let next = match &cur {
+                            Some(c) => mul::<P>(c, &lb),
+                            None => None,
+                        };
+                        match next {
+                            Some(nx) if nx != te_identity() => cur = Some(nx),
+                            _ => break,
+                        }
+                    }
+                    (cur, true)
                 } else {
                     (mul::<P>(&rr, &r), false)
                 };
